@@ -109,7 +109,7 @@ Lemma prelim_procs_complete D ps0 as0 ps assumed :
   Forall2 (elab_proc D) ps0 ps -> Forall2 (elab_name D) as0 assumed -> procs_prelim_ok D ps assumed ->
   prelim_procs D ps0 as0 = TOk (ps, assumed).
 Proof.
-  intros EP EN [PS NA TA NP DJ U1 U2 U3].
+  intros EP EN [PS NA TA NP DJ U1 U2 U3 AC].
   pose proof (elab_names_idents _ _ _ EN) as EI.
   pose proof (elab_procs_providers _ _ _ EP) as EPr.
   destruct (amn_complete _ _ _ EN) as [HT AN].
@@ -142,6 +142,8 @@ Proof.
       destruct (in_dec string_dec k (map ident assumed)) as [J|J].
       + apply I, U3, J.
       + rewrite (alookup_const_notin _ _ J) in Ea. discriminate. }
+  assert (G6 : procs_acyclic ps0 = true).
+  { rewrite procs_acyclic_eq, <- (deps_acyclic_shape _ _ (elab_procs_shape _ _ _ EP)). exact AC. }
   fold has_ty. unfold all_providers in E. rwc. reflexivity.
 Qed.
 
@@ -184,7 +186,7 @@ Qed.
 
 Theorem tc_program_complete p : ProgOK teq p -> exists p', tc_program p = TOk p'.
 Proof.
-  intros [pe [[ET [EF [EP EA]]] [SD NF [Sg [SO [FO PO]]] NA TA NP DJ U1 U2 U3]]].
+  intros [pe [[ET [EF [EP EA]]] [SD NF [Sg [SO [FO PO]]] NA TA NP DJ U1 U2 U3 AC]]].
   rewrite ET in *. pose proof (sanity_wf_env _ SD) as HD.
   assert (FS : Forall (fun_sig_ok (p_types p)) (p_funs pe)).
   { rewrite Forall_forall in *. intros f Hf. eapply FunOK_sig; eauto. }
